@@ -221,10 +221,49 @@ class CellWorld:
                 part.tick(now)
         elif kind == 'noop':
             pass
+        elif kind == 'probe':
+            self.apply_probe(body[1])
+            return
         else:
             raise AssertionError('unknown event %r' % (ev,))
         if cyc:
             self.cycle()
+
+    def apply_probe(self, idx):
+        """C02: submit one probe instance to a dedicated, uncapped allocation
+        directly under its partition root, run a cycle, compare with the
+        leaf-scan oracle evaluated on the state before submission."""
+        from mc.worlds import cellmon
+        p = self.cfg['probes'][idx]
+        cell = self.cell
+        self.seq += 1
+        name = 'q.probe#%010d' % self.seq
+        app = S.Application(
+            name, p.get('prio', 50), list(p['demand']), p['aff'],
+            affinity_limits=p.get('limits'),
+            lease=p.get('lease', 0), identity_group=p.get('idg'),
+            traits=p.get('traits', 0))
+        alloc = cell.partitions[p.get('label', '_default')].allocation \
+            .get_sub_alloc('probe')
+        alloc.update(None, p.get('rank', 100), 0, None)
+        self.allocs.setdefault('probe:' + p.get('label', '_default'), alloc)
+        self.alloc_variant.setdefault('probe:' + p.get('label', '_default'), 0)
+        fits, why = cellmon.oracle_fits(self, app, p.get('label', '_default'))
+        self.tmpl[name] = 'probe%d' % idx
+        cell.add_app(alloc, app)
+        self.cycle()
+        self.stats['c02_probes'] += 1
+        if fits:
+            self.stats['c02_probes_fitting'] += 1
+            if app.server is None:
+                self.flag('fitting-instance-left-pending',
+                          cellmon.c02_site(self, app),
+                          {'probe': p, 'fits_on': why,
+                           'pending': [self.tmpl[a.name] for a in
+                                       cell.apps.values() if not a.server
+                                       and a is not app]})
+        else:
+            self.stats['c02_probes_not_fitting'] += 1
 
     def snapshot(self):
         pre = Pre()
